@@ -251,7 +251,7 @@ class Gen:
         w("#[allow(unused_imports)]")
         w("use brood::{entities, entity, query::{filter, result, Views}, resources, Entity, Query, Registry, Resources};")
         w("#[allow(unused_imports)]")
-        w("use bvh::payload::{Heap, Kind, Med, Obs, Payload, Small, Wide, Zst};")
+        w("use bvh::payload::{Heap, Kind, Med, Obs, Payload, Plain, Small, Wide, Zst};")
         w("#[allow(unused_imports)]")
         w("use bvh::rig::{col, Consumer, FilterD, IterMode, ParCtx, ParRig, QCtx, QDesc, Rig, Row, SubD, ViewD, VK, W};")
         w("#[allow(unused_imports)]")
@@ -263,7 +263,11 @@ class Gen:
             w(f"pub type C{k} = {kind}<{self.tagbase + k}>;")
         reskinds = ["Med", "Heap", "Wide", "Small"]
         for r_ in range(self.nres):
-            w(f"pub type S{r_} = {reskinds[r_ % 3]}<{40 + self.tagbase % 8 + r_}>;")
+            kind = reskinds[r_ % 3]
+            # with four resources the first and the last are `Plain`: interchangeable wire encodings
+            if self.nres >= 4 and r_ in (0, self.nres - 1):
+                kind = "Plain"
+            w(f"pub type S{r_} = {kind}<{40 + self.tagbase % 8 + r_}>;")
         w(f"pub struct {self.name};")
         w(f"type Wd = W<{self.name}>;")
         w(f"impl Rig for {self.name} {{")
